@@ -22,8 +22,8 @@ replay = mc.replay
 YEARS = [1980, 1999, 2023, 2038, 2069, 2099]
 
 
-def draw_config(rng):
-    fam = rng.choice(["third", "third", "seventh", "seventh", "int", "x1001", "prime", "small", "small", "small", "slow", "big7", "huge"])
+def draw_config(rng, fam=None):
+    fam = fam or rng.choice(["third", "third", "seventh", "seventh", "int", "x1001", "prime", "small", "small", "small", "slow", "big7", "huge"])
     if fam == "huge":
         # index * denominator beyond 2^64: any fixed-width intermediate in the file computation wraps
         n, d = rng.choice([30000000000, 12000000000, 10**10 + 1, 2**33 + 7, 10**11, 24000000000]), rng.choice([1001, 1001, 3, 7, 11])
@@ -72,8 +72,9 @@ def run(ctx):
     evs, tscen = [], []
     nidx = ctx.pick(600, 50000)
     jobs = []
+    nhuge = ctx.pick(2, 12)     # configurations in which index * denominator really exceeds 2^64
     while sum(3 * len(j[5]) for j in jobs) < nidx:
-        n, d, fc, sc = draw_config(rng)
+        n, d, fc, sc = draw_config(rng, "huge" if len(jobs) < nhuge else None)
         y = rng.choice(YEARS + [rng.randint(1980, 2099)])
         t = calendar.timegm((y, rng.randint(1, 12), rng.randint(1, 28), rng.randint(0, 23), rng.randint(0, 59), rng.randint(0, 59)))
         j0 = t // fc
@@ -83,6 +84,8 @@ def run(ctx):
             j0 = (j0 // d) * d - rng.randint(0, 2)                 # ... contains a boundary that falls exactly on an index
         nj = rng.randint(4, 12)
         if (j0 + nj) * fc * n // d >= 2**62 or j0 < 1:
+            continue
+        if len(jobs) < nhuge and (j0 * fc * n // d) * d < 2**64:
             continue
         jobs.append((ctx.work, n, d, fc, sc, range(j0, j0 + nj)))
     nconf = len(jobs)
